@@ -8,9 +8,9 @@
    pseudo_selections, pseudo_expected, ...) are at the top of Proofs/HeaderCollectProofs.v and
    Proofs/HeaderWireProofs.v. *)
 From ReqV Require Import Lib.Bytes Model.HeaderOrder Model.HeaderCollect
-  Model.HeaderMerge Model.HeaderSeq Model.HeaderResend Model.HeaderShared Model.HeaderFrag Model.HeaderRedirect Model.HeaderAbandon Model.HeaderKeepAlive
+  Model.HeaderMerge Model.HeaderSeq Model.HeaderResend Model.HeaderShared Model.HeaderFrag Model.HeaderRedirect Model.HeaderAbandon Model.HeaderKeepAlive Model.HeaderCloneHdr
   Proofs.HeaderOrderProofs Proofs.HeaderCollectProofs Proofs.HeaderWireProofs Proofs.HeaderSyncProofs
-  Proofs.HeaderMergeProofs Proofs.HeaderKeySortProofs Proofs.HeaderSeqProofs Proofs.HeaderResendProofs Proofs.HeaderSharedProofs Proofs.HeaderFragProofs Proofs.HeaderRedirectProofs Proofs.HeaderAbandonProofs Proofs.HeaderKeepAliveProofs Gen.HeaderSrc.
+  Proofs.HeaderMergeProofs Proofs.HeaderKeySortProofs Proofs.HeaderSeqProofs Proofs.HeaderResendProofs Proofs.HeaderSharedProofs Proofs.HeaderFragProofs Proofs.HeaderRedirectProofs Proofs.HeaderAbandonProofs Proofs.HeaderKeepAliveProofs Proofs.HeaderCloneHdrProofs Gen.HeaderSrc.
 From Coq Require Import NArith.
 From Coq Require Import Permutation Sorting.Sorted.
 
@@ -751,6 +751,49 @@ Theorem C16_round7_go_as_modelled :
   src_h1_conn_close_cond = bs "pc.t.DisableKeepAlives && !reqWantsClose(req.Request) && !isProtocolSwitchHeader(req.Header)".
 Proof. exact h1_conn_close_cond_go_as_modelled. Qed.
 Print Assumptions C16_round7_go_as_modelled.
+
+(* ===================== part 2h: common headers in a family of cloned clients ===================== *)
+
+(* for every later sequence of operations on OTHER members (clones of it, clones of clones, values added
+   or set on parent, sibling, child): a member's common headers do not change *)
+Theorem C16_hfam_later_ops_do_not_reach : forall ops2 s j,
+  j < length s -> forallb (fun o => negb (hwrites o j)) ops2 = true ->
+  nth j (fold_left hfam_step ops2 s) [] = nth j s [].
+Proof. exact hfam_later_ops_do_not_reach. Qed.
+Print Assumptions C16_hfam_later_ops_do_not_reach.
+
+(* clone, then one more value under the same name on the clone AND on the original, in either order:
+   each side ends with the inherited values followed by its OWN value *)
+Theorem C16_clone_then_append_both_sides : forall s w k a b,
+  w < length s ->
+  let kid := length s in
+  let s1 := fold_left hfam_step [HClone w; HAdd kid k a; HAdd w k b] s in
+  let s2 := fold_left hfam_step [HClone w; HAdd w k b; HAdd kid k a] s in
+  hvals (nth kid s1 []) k = hvals (nth w s []) k ++ [a] /\ hvals (nth w s1 []) k = hvals (nth w s []) k ++ [b] /\
+  hvals (nth kid s2 []) k = hvals (nth w s []) k ++ [a] /\ hvals (nth w s2 []) k = hvals (nth w s []) k ++ [b].
+Proof. exact clone_then_append_both_sides. Qed.
+Print Assumptions C16_clone_then_append_both_sides.
+
+(* a SHALLOW copy of the map (value slices shared, len 3 / cap 4): the original's append overwrites the
+   clone's in the shared slot *)
+Theorem C16_shallow_clone_lost_update :
+  let k := bs "X-Common" in
+  let hp0 := mk_sheap [] in
+  let '(hp1, m1) := sappend hp0 [] k (bs "a") in
+  let '(hp2, m2) := sappend hp1 m1 k (bs "b") in
+  let '(hp3, orig) := sappend hp2 m2 k (bs "c") in
+  let clone := orig in
+  let '(hp4, clone') := sappend hp3 clone k (bs "clone-only") in
+  let '(hp5, orig') := sappend hp4 orig k (bs "orig-only") in
+  smap_vals hp4 clone' k = [bs "a"; bs "b"; bs "c"; bs "clone-only"] /\
+  smap_vals hp5 clone' k = [bs "a"; bs "b"; bs "c"; bs "orig-only"] /\
+  smap_vals hp5 orig' k = [bs "a"; bs "b"; bs "c"; bs "orig-only"].
+Proof. exact shallow_clone_lost_update. Qed.
+Print Assumptions C16_shallow_clone_lost_update.
+
+Theorem C16_round8_go_as_modelled : src_clone_headers = bs "t.Headers.Clone()".
+Proof. exact clone_headers_go_as_modelled. Qed.
+Print Assumptions C16_round8_go_as_modelled.
 
 (* ===================== part 3: the source the model transcribes ===================== *)
 (* Gen/HeaderSrc.v is regenerated from the working tree on every run; these statements pin the text
